@@ -286,15 +286,26 @@ class RunReactorTask(Task):
 # and nothing else, in particular no timer that could run out while the user is busy; the user's response is sent as A-RELEASE-RP
 # (AR-4 / AR-9) - is the state machine's contract (C04), re-proved under this id for the release actions and the two events
 RELEASE_ACTIONS = ("AR-2", "AR-4", "AR-8", "AR-9", "AR-10")
-RELABEL = {"C04/": "C07/release-actions:"}
-RELABEL_ONLY = {"C04/": r"fsm:AR_(2|4|8|9|10)/(protocol-effects-are-exactly-PS3\.8|next-state-is-PS3\.8|no-exception|indication)|"
+# ... and that the provider hands the state machine exactly the events that happened, one source per loop iteration (a second event for
+# a primitive that is still queued would later run AR-7 on the release response and end the provider before the A-RELEASE-RP is sent),
+# is the reactor contract of C05, re-proved under this id
+RELABEL = {"C04/": "C07/release-actions:", "C05/": "C07/provider:"}
+RELABEL_ONLY = {"C05/": r"run_reactor/(one-source-per-iteration|at-most-one-event-is-handed|the-only-event-the-loop-itself-queues|no-exception-escapes)|"
+                        r"_process_recv_primitive/(queues-exactly-the-PS3.8-event|nothing-queued-for-an-empty)",
+                "C04/": r"fsm:AR_(2|4|8|9|10)/(protocol-effects-are-exactly-PS3\.8|next-state-is-PS3\.8|no-exception|indication)|"
                         r"do_action/(performs-exactly-the-Table-9-10-action|moves-to-the-state-the-action-returned)"}
 
 
 def tasks(tier):
     from contracts import C04
     return [IsReleaseRequestedTask(), CallSiteScan(), S.WrapHandlerTask("C20/"), RunReactorTask(), W.WrapTask("find"), W.WrapTask("getmove")] + \
-        [C04.ActionTask(a) for a in RELEASE_ACTIONS] + [C04.DoActionTask(e) for e in ("Evt12", "Evt14")] + [_negotiate_release(), _send_release()]
+        [C04.ActionTask(a) for a in RELEASE_ACTIONS] + [C04.DoActionTask(e) for e in ("Evt12", "Evt14")] + [_negotiate_release(), _send_release()] + _provider_tasks()
+
+
+def _provider_tasks():
+    from contracts.dul_reactor import DulReactorTask
+    from contracts.C05 import ProcessPrimitiveTask
+    return [DulReactorTask(), ProcessPrimitiveTask()]
 
 
 def _send_release():
@@ -311,6 +322,8 @@ def _negotiate_release():
 def replay(rec):
     from pyvc.replay import run_replay
     oid = rec.get("id", "")
+    if oid.startswith("C07/provider:"):
+        return run_replay("C05", dict(rec, id="C05/" + oid[len("C07/provider:"):]))
     if oid.startswith("C07/release-actions:"):
         return run_replay("C04", dict(rec, id="C04/" + oid[len("C07/release-actions:"):]))
     return run_replay("C07", rec)
